@@ -78,8 +78,12 @@ def drv_utility(tier, rng):
         req = {'preferenceFunction': method, 'knownAlternatives': known, 'choseToMake': chose,
                'criteria': crits, 'methodParameters': {'weights': w}, 'biases': []}
         g = []
+        # one case in six at a huge magnitude: every criterion value times 2^38 (utilities around 1e11 .. 1e13); the three
+        # aggregates are linear in the values and powers of two scale exactly, so the harness divides the reported values
+        # by 2^38 again and the specification judges the same instance
+        huge = {'vscale': 2 ** 38} if rng.random() < 1 / 6 else {}
         for r in perm_twins(rng, req, 'C04', 2):
-            g.append(base_case(r, exactprop='C03', group={'id': 'x', 'rel': 'perm', 'p': 'C04'}))
+            g.append(base_case(r, exactprop='C03', group={'id': 'x', 'rel': 'perm', 'p': 'C04'}, **huge))
         groups.append(g)
     # Choquet near-ties around its 1e-5 tolerance, at magnitude 1 and 250: unit 2^20 resolves gaps of 8 (7.6e-6: tied)
     # and 16 or 32 (1.5e-5, 3e-5: distinct) units.  The capacity of the full set is 0 so that no product overflows.
@@ -175,12 +179,20 @@ def drv_majority(tier, rng):
 
 
 # ---------------------------------------------------------------- aspect elimination / satisfaction
+def repeat_level(rng, ths):
+    """a listed level may simply be repeated: it still counts as a level of its own (level indices are positions in the list)"""
+    if ths and rng.random() < 0.3:
+        i = rng.randrange(len(ths))
+        ths = ths[:i + 1] + [dict(ths[i])] * rng.choice([1, 1, 2]) + ths[i + 1:]
+    return ths
+
+
 def level_source(rng, dir_, crits, types, vmax):
     """explicit thresholds (monotone per criterion) or a generated series with dyadic parameters"""
     r = rng.random()
     if r < 0.15:     # explicit levels need not be monotone: any list is walked in the given order
         ths = [{c: UNIT * rng.randint(0, vmax) for c in crits} for _ in range(rng.randint(1, 4))]
-        return 'thresholds', {'thresholds': ths}
+        return 'thresholds', {'thresholds': repeat_level(rng, ths)}
     if r < 0.45:
         k = rng.randint(0, 3)
         steps = sorted(rng.sample(range(0, vmax + 1), min(k, vmax + 1)))
@@ -190,7 +202,7 @@ def level_source(rng, dir_, crits, types, vmax):
             for c, ty in zip(crits, types):
                 t[c] = UNIT * (s_ if ty == 'gain' else vmax - s_)
             ths.append(t)
-        return 'thresholds', {'thresholds': ths}
+        return 'thresholds', {'thresholds': repeat_level(rng, ths)}
     coef = rng.choice([Q, 2 * Q, 3 * Q])
     if dir_ == 'inc':
         fn = rng.choice(['idealMultipliedCoefficient', 'idealAdditiveCoefficient'])
@@ -298,6 +310,14 @@ def scaled(req, num, den):
     return r
 
 
+def scaled_pow2(req, e2):
+    """every weight k times 2^e2 (any power of two, also far from 1: k around 1e-7 or 1e6)"""
+    r = copy.deepcopy(req)
+    for c, e in r['methodParameters']['electreCriteria'].items():
+        e['k'] = {'n': e['k'], 'd': UNIT, 'e': e2}
+    return r
+
+
 def drv_electre(tier, rng):
     groups = []
     N = 250 if tier == 'quick' else 5000
@@ -313,7 +333,7 @@ def drv_electre(tier, rng):
             ka = req['knownAlternatives']
             ka[1]['criteria'] = dict(ka[0]['criteria'])
         g = []
-        variants = perm_twins(rng, req, 'C06', 1) + [scaled(req, 2, 1), scaled(req, 1, 4)]
+        variants = perm_twins(rng, req, 'C06', 1) + [scaled(req, 2, 1), scaled(req, 1, 4), scaled_pow2(req, rng.choice([-30, -24, -20, 10]))]
         for r in variants:
             g.append(base_case(r, sa=f[2], sb=f[3], failprop='C05', group={'id': 'x', 'rel': 'perm', 'p': 'C06'}))
         groups.append(g)
@@ -372,6 +392,24 @@ def drv_pipeline(tier, rng):
         for mth in pipeline.METHODS:
             for sq in seqs:
                 groups.append([pcase(pipeline.pipeline_case(rng, mth, list(sq)))])
+    # listing-order twins through biases whose effect is defined per alternative id (C04): concealment hands out its seeded
+    # values in id order, omission / reversal / mixing do not look at the alternatives' order at all
+    for _ in range(40 if tier == 'quick' else 800):
+        mth = rng.choice(['weightedSum', 'owa', 'choquetIntegral'])
+        sq = rng.choice([['criteriaConcealment'], ['criteriaConcealment'], ['criteriaMixing'], ['criteriaOmission', 'criteriaConcealment'],
+                         ['preferenceReversal', 'criteriaConcealment'], ['criteriaConcealment', 'criteriaMixing']])
+        req = pipeline.pipeline_case(rng, mth, list(sq), n=rng.randint(3, 5))
+        groups.append([pcase(r, probe=False, group={'id': 'x', 'rel': 'perm', 'p': 'C04'}) for r in perm_twins(rng, req, 'C04', 2)])
+    # the same criterion-adding bias three and four times in one request: generated ids must stay unique (C07, C18)
+    for _ in range(reps):
+        for mth in pipeline.METHODS:
+            for name, k in (('criteriaConcealment', 3), ('criteriaConcealment', 4), ('criteriaMixing', 3), ('criteriaMixing', 4), ('anchoring', 3)):
+                req = pipeline.pipeline_case(rng, mth, [name] * k, m=2 if name == 'criteriaMixing' else None)
+                for b in req['biases']:
+                    if b['name'] == 'anchoring':
+                        b['props']['applier'] = {'function': 'newCriterion', 'params': {'randomSeed': rng.randint(0, 999)}}
+                        b['props']['referencePoints'] = {'function': 'ideal'}
+                groups.append([pcase(req)])
     N = 300 if tier == 'quick' else 6000
     for _ in range(N):
         groups.append([pcase(pipeline.pipeline_case(rng))])
@@ -449,13 +487,15 @@ def drv_c08(tier, rng):
             if pr is not None:
                 b['applyProbability'] = pr
             base.append(b)
-        seeds = [rng.randint(0, 10 ** 6)]
+        # seed 0 and a seed left out (= 0) are seeds like any other: the draws depend on the seed only
+        seeds = [rng.choice([0, None, rng.randint(0, 10 ** 6), rng.randint(0, 10 ** 6), rng.randint(0, 10 ** 6)])]
         g = []
 
         def member(biases, same=False):
             r = copy.deepcopy(req)
             r['biases'] = biases
-            r['biasApplyRandomSeed'] = seeds[0]
+            if seeds[0] is not None:
+                r['biasApplyRandomSeed'] = seeds[0]
             grp = {'id': 'x', 'rel': 'c08', 'p': 'C08'}
             if same:
                 grp['sameAsFirst'] = True
@@ -930,7 +970,7 @@ FAMILIES = {
         'mode': 'conc', 'trace': 'Trace_Conc', 'drivers': [],
     },
     'conc_free': {
-        'mode': 'conc', 'race': True, 'ok_rcs': (0, 66), 'post': post_races, 'trace': 'Trace_Conc', 'drivers': [drv_conc_free],
+        'mode': 'conc', 'race': True, 'ok_rcs': (0, 66), 'crash_obs': True, 'post': post_races, 'trace': 'Trace_Conc', 'drivers': [drv_conc_free],
     },
     'conc_model': {
         'mc': 'MC_Service', 'mc_cfg': {'quick': 'MC_Service_quick.cfg', 'thorough': 'MC_Service_thorough.cfg'},
@@ -1020,6 +1060,6 @@ PROPS = {
             'rule': 'cases = TLC-enumerated instances + seeded random instances; non-trivial = accepted request whose result has >= 2 entries; distinct by request'},
     'C03': {'level_text': 'reference equality with Utility!WS2 / OWA2 / Choquet2 evaluated by TLC on the criteria values finally evaluated and the post-bias parameters recorded by the hook, on exact dyadic grids (all capacity tables over {0,1/4,1/2,1} for 2 criteria, {0,1/2,1} for 3), also after omission / reversal', 'level_note': "exact grids only (float accuracy on arbitrary reals is outside this technique); weightedSum's missing weight is a recorded known finding matched by the named deviation WSUnweighted", 'families': ['utility', 'pipeline'], 'nontrivial': nt_formula,
             'rule': 'non-trivial = accepted utility request with >= 2 criteria (weights/capacities matter); distinct by request'},
-    'C04': {'level_text': 'Ranking!VOrder / VLinks (order by value then id, links = ties + next lower level) evaluated by TLC on the reported utilities of every replayed case; MC_Utility checks on the design that following these links reaches exactly the alternatives not valued higher (ReachTheorem) for all tie patterns up to 6 alternatives; listing-order twins must agree per alternative; values one 1e-8 step apart (unit 1e8) and sub-step nudges', 'level_note': 'comparison-only contract on the reported values (independent of C03); exhaustive tie patterns to n=4 (quick) / 6 (thorough), random to n=8', 'families': ['utility'], 'nontrivial': nt_ties,
+    'C04': {'level_text': 'Ranking!VOrder / VLinks (order by value then id, links = ties + next lower level) evaluated by TLC on the reported utilities of every replayed case; MC_Utility checks on the design that following these links reaches exactly the alternatives not valued higher (ReachTheorem) for all tie patterns up to 6 alternatives; listing-order twins must agree per alternative; values one 1e-8 step apart (unit 1e8) and sub-step nudges', 'level_note': 'comparison-only contract on the reported values (independent of C03); exhaustive tie patterns to n=4 (quick) / 6 (thorough), random to n=8', 'families': ['utility', 'pipeline'], 'cap': {'quick': 1500}, 'nontrivial': nt_ties,
             'rule': 'non-trivial = accepted utility request with >= 2 ranked alternatives; distinct by request'},
 }
